@@ -1077,7 +1077,14 @@ def run_optim(case, rec):
             P = orc.parse_iter(final, sess.names)
             expected = P['values'] if P['ok'] else None
             rec.c('second_estimate_same_object_with_file')
-        bg.estimate()
+        gave_up = None
+        try:
+            bg.estimate()
+        except BaseException as e:  # noqa
+            if type(e).__name__ != 'OptimizationError' or sess.first_eval is None:
+                raise
+            gave_up = e  # the optimisation algorithm gave up after the start: the starting point is judged all the same
+            rec.c('second_estimate_optimiser_gave_up_after_start')
         fe = sess.first_eval
         if expected is not None and fe is not None:
             from ..oracle import c15_oracle as orc
